@@ -37,10 +37,10 @@ theorem ValidName.ne_nil {n : Bytes} (h : ValidName n) : n ≠ [] := by
 
 theorem sep_not_mem_itoa (d : Nat) : sep ∉ itoa d := by
   intro h
-  have := Dec.render_all_digits d sep h
+  have := KV.DecL.render_all_digits d sep h
   rw [sep_not_digit] at this; cases this
 
-theorem itoa_injective {a b : Nat} (h : itoa a = itoa b) : a = b := Dec.render_injective h
+theorem itoa_injective {a b : Nat} (h : itoa a = itoa b) : a = b := KV.DecL.render_injective h
 
 /-- names free of the separator (what isValidBucketName guarantees) -/
 def NoSep (p : Path) : Prop := ∀ n ∈ p, sep ∉ n
@@ -94,8 +94,8 @@ theorem idxKey_injective {p q : Path} (hp : NoSep p) (hq : NoSep q) (h : idxKey 
   exact (List.cons.inj (List.cons.inj this).2).2
 
 theorem head_pathBytes_digit (p : Path) : ∃ c rest, pathBytes p = c :: rest ∧ Dec.isDigit c = true := by
-  have hne := Dec.render_ne_nil p.length
-  have hd := Dec.render_all_digits p.length
+  have hne := KV.DecL.render_ne_nil p.length
+  have hd := KV.DecL.render_all_digits p.length
   unfold pathBytes join itoa
   cases hr : Dec.render p.length with
   | nil => exact absurd hr hne
